@@ -172,6 +172,39 @@ def run_counts(ctx, rng):
     ctx.sample(dict(kind="counters-run", method="RK45CKSolver", checks=["nfev-exact", "callback-order", "callback-once-per-step"]))
 
 
+def shared_wrapper(ctx, rng):
+    """one DiffRHS instance (e.g. from @rhs_prettifier) used for several systems: each system counts its own calls"""
+    for name, with_jac in [("RK4Solver", False), ("RK45CKSolver", False), ("BackwardEuler", False), ("RadauIIA5", True)]:
+        u = Counted(with_jac)
+        w = de.rhs_prettifier("dy = f(t, y)")(u)
+        inp = dict(kind="shared-wrapper", method=name, user_jacobian=with_jac)
+
+        def mk():
+            o = de.OdeSystem(w, y0=np.array([1.0, 0.0]), t=(0.0, 1.0), dt=0.1, rtol=1e-5, atol=1e-7)
+            o.set_method(getattr(I, name))
+            return o
+        try:
+            a = mk()
+            d0 = u.done
+            a.integrate()
+            na = u.done - d0 + 1
+            b = mk()
+            ctx.oracle("second-system-starts-fresh", b.nfev == 1 and b.njev == 0, dict(inp, nfev=b.nfev, njev=b.njev),
+                       what="a second system built from the same wrapped rhs starts with nfev=%d njev=%d (expected 1, 0)" % (b.nfev, b.njev))
+            ctx.oracle("first-system-count", a.nfev == na, dict(inp, nfev=a.nfev, counted=na), what="system A: nfev=%d, counted %d" % (a.nfev, na))
+            a_before = (a.nfev, a.njev)
+            d1 = u.done
+            b.integrate()
+            ctx.oracle("systems-count-independently", (a.nfev, a.njev) == a_before and b.nfev == u.done - d1 + 1, dict(inp, a=[a.nfev, a.njev], b=[b.nfev, b.njev]),
+                       what="running system B changed system A's counters or B miscounted")
+            b_before = (b.nfev, b.njev)
+            a.reset()
+            ctx.oracle("reset-is-per-system", (b.nfev, b.njev) == b_before and a.nfev == 0, inp, what="reset() of system A changed system B's counters")
+        except Exception as e:
+            ctx.oracle("shared-wrapper-run", False, inp, what="raised %r" % (e,))
+        ctx.count("shared:" + name)
+
+
 def callback_dt(ctx, rng):
     scs, lines = [], []
     for i in range(40 if ctx.quick() else 400):
@@ -203,6 +236,7 @@ def callback_dt(ctx, rng):
 def run(ctx):
     wrapper_ops(ctx, ctx.rng)
     run_counts(ctx, ctx.rng)
+    shared_wrapper(ctx, ctx.rng)
     callback_dt(ctx, ctx.rng)
 
 
